@@ -36,7 +36,7 @@ func init() {
 		Run: ruleParseErrorRejects,
 	})
 	register(&Rule{
-		Name: "settings-codec-table", Props: []string{"C18", "C05"}, Engine: "CODEC", Floor: 12,
+		Name: "settings-codec-table", Props: []string{"C18", "C05", "C06", "C07"}, Engine: "CODEC", Floor: 18,
 		Doc: "Settings.Read maps identifier k to the field Settings.Encode writes under identifier k (six parameters), identifiers are read from octets 0-1 and values from octets 2-5 big-endian, entries are 6 octets, and unknown identifiers are ignored (RFC 7540 s6.5.1-6.5.2)",
 		Run: ruleSettingsCodec,
 	})
@@ -530,6 +530,31 @@ func ruleSettingsCodec(p *Prog, r *Out) {
 			good := len(e.shifts) == 4 && e.shifts[0] == 24 && e.shifts[1] == 16 && e.shifts[2] == 8 && e.shifts[3] == 0
 			r.check(good, fmt.Sprintf("Encode %s value bytes", want), p.pos(efd.Pos()), "big-endian 32-bit value", fmt.Sprintf("Settings.Encode writes %s with shifts %v, not big-endian 24,16,8,0", want, e.shifts))
 		}
+	}
+	// every case stores the received value (and its presence marker) unconditionally:
+	// only a rejecting validation may precede the store
+	_, clauses, _ := p.settingsReadMap()
+	for id := int64(1); id <= 6; id++ {
+		cc := clauses[id]
+		if cc == nil {
+			continue
+		}
+		want := settingsFieldOfID[id]
+		stored, marker := false, id != 4
+		for _, s := range cc.Body {
+			as, ok := s.(*ast.AssignStmt)
+			if !ok || len(as.Lhs) != 1 {
+				continue
+			}
+			if p.isFieldSel(as.Lhs[0], "Settings", want) && strings.Contains(p.text(as.Rhs[0]), "value") {
+				stored = true
+			}
+			if p.isFieldSel(as.Lhs[0], "Settings", "hasWindowSize") && p.text(as.Rhs[0]) == "true" {
+				marker = true
+			}
+		}
+		r.check(stored && marker, fmt.Sprintf("Read id %d stores unconditionally", id), p.pos(cc.Pos()), "value (and presence marker) stored at the top level of the case",
+			fmt.Sprintf("Settings.Read case %s stores the received value or its presence marker only conditionally: the frame object was reset to defaults before parsing, so a condition on the old field value compares against the default, not the peer's previous setting; a SETTINGS frame carrying exactly the default (e.g. INITIAL_WINDOW_SIZE=65535 after another value) is then treated as absent", settingsIDs[id]))
 	}
 	// Read's entry layout: key from b[0],b[1]; value from b[2..5]; stride 6
 	keyOK, valOK, strideOK := false, false, false
